@@ -152,6 +152,7 @@ func flowFaithfulRun(run *ev.Run, tier string) (int64, int64, int64) {
 		{name: "forward-goto-7", cfg: flowCfg(7, 4, `{"L"}`, `{"for","ifb","switch","closure"}`, `{"ret","call"}`, `{"fgoto","label"}`, 3)},
 		{name: "if-else-block-panic-7", cfg: flowCfg(7, 5, `{"L"}`, `{"ifb","block"}`, `{"ret","panic","spanic"}`, `{}`, 2)},
 		{name: "loops-switch-break-7", cfg: flowCfg(7, 4, `{"L"}`, `{"for","switch","select"}`, `{"ret"}`, `{"break","label","continue"}`, 2)},
+		{name: "simple-statements-5", cfg: flowCfg(5, 3, `{"L"}`, `{"ifb","for","closure"}`, `{"ret","assign","define","incdec","send","defer","go","var"}`, `{}`, 3)},
 	}
 	if tier == "thorough" {
 		confs = []flowConf{
@@ -162,6 +163,7 @@ func flowFaithfulRun(run *ev.Run, tier string) (int64, int64, int64) {
 			{name: "loops-switch-break-9", cfg: flowCfg(9, 5, `{"L"}`, `{"for","switch","select"}`, `{"ret"}`, `{"break","label","continue"}`, 2)},
 			{name: "tswitch-fallthrough-9", cfg: flowCfg(9, 5, `{"L"}`, `{"switch","tswitch"}`, `{"ret","panic"}`, `{"fallthrough","break"}`, 2)},
 			{name: "range-forcond-labels-8", cfg: flowCfg(8, 5, `{"L","M"}`, `{"range","forcond","for","block"}`, `{"ret"}`, `{"break","continue","label"}`, 2)},
+			{name: "simple-statements-6", cfg: flowCfg(6, 4, `{"L"}`, `{"ifb","for","switch","closure"}`, `{"ret","assign","define","incdec","send","defer","go","var"}`, `{}`, 3)},
 		}
 	}
 	var states, transitions, total int64
